@@ -468,6 +468,7 @@ package sio
 //@   loop 0 invariant len(packets) == len(old(buffers)) && len(buffers) == len(old(buffers)) - 1 && arr(buffers) == arr(old(buffers)) && off(buffers) == off(old(buffers)) + 1
 //@   loop 0 invariant packets[0] != nil && !packets[0].IsBinary && packets[0].Type == 4 && packets[0].Data == old(buffers[0])
 //@   loop 0 invariant forall k int :: 1 <= k && k <= rangeindex + 1 ==> packets[k] != nil && packets[k].IsBinary && packets[k].Type == 4 && packets[k].Data == old(buffers[k])
+//@   loop 1 invariant unchanged(old(s.sendBuffer)) && s.sendBuffer == old(s.sendBuffer)
 //@   loop 1 invariant len(buffers) == len(packets) && forall k int :: 0 <= k && k <= rangeindex ==> buffers[k].ackID == ackID && buffers[k].packet == packets[k]
 
 // After the (re)connection everything buffered offline is handed over in one call, in order, and the buffer is emptied.
